@@ -888,6 +888,43 @@ func TestVerifC19Directed(t *testing.T) {
 		w.connect(t, vf19Conn{Ident: a, Name: vf19Names[0], SrvMax: VersionTLS12, OmitPSK: true}) // non-EMS session, EMS hello: full handshake
 		w.finish()
 	}
+	// (a3) the same with every PREDEFINED identity whose hello has session_ticket but no extended_master_secret
+	// (Hello360_7_5, and randomized IDs for the seeds that draw no EMS): EMS session of another identity in the cache
+	{
+		var noEMS []*vf19Ident
+		for _, p := range vfParrots {
+			if id := mk(p, false); id.HasTicket && !id.HasEMS {
+				noEMS = append(noEMS, id)
+			}
+		}
+		for _, base := range []ClientHelloID{HelloRandomized, HelloRandomizedALPN, HelloRandomizedNoALPN} {
+			found := 0
+			for k := 0; k < 64 && found < 2; k++ {
+				rid := base
+				var seed PRNGSeed
+				seed[0], seed[7] = byte(k), byte(3*k+1)
+				rid.Seed = &seed
+				w := DefaultWeights
+				rid.Weights = &w
+				id, err := vf19NewIdent(vfParrot{fmt.Sprintf("%s(seed %d)", base.Client, k), rid}, false, nil)
+				if err == nil && id.HasTicket && !id.HasEMS {
+					noEMS = append(noEMS, id)
+					found++
+				}
+			}
+		}
+		st.Extra("predefined_identities_without_ems", len(noEMS))
+		for i, b := range noEMS {
+			w := vf19NewWorld(st)
+			a := mk(chrome100, false)
+			name := vf19Names[i%len(vf19Names)]
+			w.connect(t, vf19Conn{Ident: a, Name: name, SrvMax: VersionTLS12, OmitPSK: true})
+			w.connect(t, vf19Conn{Ident: b, Name: name, SrvMax: VersionTLS12, OmitPSK: true})
+			w.connect(t, vf19Conn{Ident: b, Name: name, SrvMax: VersionTLS12, OmitPSK: true})
+			w.connect(t, vf19Conn{Ident: a, Name: name, SrvMax: VersionTLS12, OmitPSK: true})
+			w.finish()
+		}
+	}
 	// (a2) a TLS 1.2 session cached by another identity, then a spec without session_ticket under the same name
 	{
 		w := vf19NewWorld(st)
